@@ -549,6 +549,24 @@ func evalOrder(c *vk.Ctx, cs *Case, ins []*input, ord []int, want, all agg, befo
 	if len(gotAP.Stacks) > nGroups {
 		c.Count("merges/finer-than-required", 1) // tolerated: split on attributes the statement does not list
 	}
+	// the same with the documented mapping identity (size rounded up to 4K, file offset): no two stacks that
+	// differ in it are fused, and the result does not hold the same mapping twice
+	if ws, gs := documentedStacks(ordered), documentedStacks([]*ap.AP{gotAP}); got.equal(want) && strings.Join(ws, "\n") != strings.Join(gs, "\n") {
+		c.Violationf("conservation/documented-mapping-identity", wit(), "by the documented mapping identity (size rounded up to 4K, offset) the inputs hold\n%s\nbut the result holds\n%s", strings.Join(ws, "\n"), strings.Join(gs, "\n"))
+	}
+	seenMap := map[string]int{}
+	for i, m := range gotAP.Maps {
+		id := m.BuildID
+		if id == "" {
+			id = m.File
+		}
+		k := fmt.Sprintf("%q %x@%x", id, (m.Limit-m.Start+0xfff)/0x1000*0x1000, m.Offset)
+		if j, dup := seenMap[k]; dup {
+			c.Violationf("conservation/same-mapping-twice", wit(), "mappings %d and %d of the result are the same mapping by the documented identity (%s): %+v and %+v", j, i, k, gotAP.Maps[j], m)
+			break
+		}
+		seenMap[k] = i
+	}
 	if !got.equal(want) {
 		c.Violationf("conservation/"+classify(want, got, all), wit(), "expected (sum by identity over the inputs):\n%sgot (merge result, aggregated by the same identity):\n%s", want, got)
 	} else {
